@@ -22,6 +22,7 @@ func init() {
 	wrap("C14", extra12C14)
 	wrap("C11", extra12C11)
 	wrap("C19", extra12C19)
+	wrap("C16", extra12C16)
 	registry["C14"].Pkgs = append(registry["C14"].Pkgs, "api")
 }
 
@@ -468,5 +469,121 @@ func extra12C19(c *Ctx) {
 			return true
 		})
 		c.Check(rule, f.Key()+" looks at the whole family list", c.Pos(f.Decl), whole, "neither a range over ModelFamilies nor slices.Contains/Index of it: the family is looked for in a part of the list only")
+	}
+}
+
+// ---------------------------------------------------------------------------------- C16
+
+func extra12C16(c *Ctx) {
+	rule := "C16-R12"
+	c.Rule(rule, "what is reserved for the graph is what is added for the graph: in llm.EstimateGPULayers the two graph sizes (the locals stored in MemoryEstimate.graphFullOffload and .graphPartialOffload) are assigned several times — by GraphSize, by the fall-back for an architecture without a formula, by the flash-attention/full-offload adjustments — and added to the GPU allocations at the end; a local whose definition reads one of them is defined where no assignment to either can still follow. A reserve computed before the fall-back is 0 for an architecture GraphSize does not know: admission and placement reserve nothing, the fall-back graph is added afterwards and the plan exceeds the GPU's free memory")
+	f := c.Fn(rule, "llm", "EstimateGPULayers")
+	if f == nil {
+		return
+	}
+	info := f.Info()
+	g := c.G(f)
+	graphVars := map[types.Object]string{}
+	ast.Inspect(f.Body, func(nd ast.Node) bool {
+		kv, ok := nd.(*ast.KeyValueExpr)
+		if !ok {
+			return true
+		}
+		if k, isK := kv.Key.(*ast.Ident); isK && (k.Name == "graphFullOffload" || k.Name == "graphPartialOffload") {
+			if fv, isF := info.Uses[k].(*types.Var); isF && fv.IsField() {
+				if id, isId := ast.Unparen(kv.Value).(*ast.Ident); isId {
+					if v, isV := info.Uses[id].(*types.Var); isV && !v.IsField() {
+						graphVars[v] = k.Name
+					}
+				}
+			}
+		}
+		return true
+	})
+	if len(graphVars) != 2 {
+		c.Undecided(rule, "anchor:graph size locals of "+f.Key(), c.Pos(f.Decl), "anchor lost: the locals stored in MemoryEstimate.graphFullOffload/graphPartialOffload were not found")
+		return
+	}
+	lhsObj := func(e ast.Expr) types.Object {
+		if id, ok := ast.Unparen(e).(*ast.Ident); ok {
+			if o := info.Defs[id]; o != nil {
+				return o
+			}
+			return info.Uses[id]
+		}
+		return nil
+	}
+	mentions := func(e ast.Node) bool {
+		found := false
+		ast.Inspect(e, func(m ast.Node) bool {
+			if id, ok := m.(*ast.Ident); ok && graphVars[info.Uses[id]] != "" {
+				found = true
+			}
+			return true
+		})
+		return found
+	}
+	var writes []*ast.AssignStmt
+	type snap struct {
+		as  *ast.AssignStmt
+		obj types.Object
+	}
+	var snaps []snap
+	ast.Inspect(f.Body, func(nd ast.Node) bool {
+		if _, isLit := nd.(*ast.FuncLit); isLit {
+			return false
+		}
+		as, ok := nd.(*ast.AssignStmt)
+		if !ok {
+			return true
+		}
+		isWrite := false
+		for _, l := range as.Lhs {
+			if graphVars[lhsObj(l)] != "" {
+				isWrite = true
+			}
+		}
+		if isWrite {
+			writes = append(writes, as)
+			return true
+		}
+		if as.Tok != token.DEFINE && as.Tok != token.ASSIGN {
+			return true // gpuAllocations[i] += graph…: the final addition, not a copy
+		}
+		for i, l := range as.Lhs {
+			o := lhsObj(l)
+			if o == nil {
+				continue
+			}
+			if v, isV := o.(*types.Var); !isV || v.IsField() {
+				continue
+			}
+			var rhs ast.Expr
+			if len(as.Rhs) == len(as.Lhs) {
+				rhs = as.Rhs[i]
+			} else if len(as.Rhs) == 1 {
+				rhs = as.Rhs[0]
+			}
+			if rhs != nil && mentions(rhs) {
+				snaps = append(snaps, snap{as, o})
+			}
+		}
+		return true
+	})
+	c.Expect(rule, "assignments to the graph size locals in EstimateGPULayers", len(writes), 3)
+	for _, sn := range snaps {
+		from := g.Locate(sn.as)
+		stale := ""
+		for _, w := range writes {
+			if to := g.Locate(w); from.Valid() && to.Valid() && g.Reaches(from, to) {
+				stale = c.Pos(w)
+				break
+			}
+		}
+		c.Check(rule, f.Key()+" "+sn.obj.Name()+" copies a final graph size", c.Pos(sn.as), stale == "",
+			"`"+core.ExprString(sn.as.Lhs[0])+"` is computed from the graph sizes and one of them is assigned afterwards (at "+stale+"): what the guards reserve is not what is added to the allocation")
+	}
+	if len(snaps) == 0 {
+		c.OK(rule, f.Key()+" no copy of a graph size", c.Pos(f.Decl), "the guards read the graph size locals directly")
 	}
 }
